@@ -5,8 +5,8 @@ from . import base
 ID = 'C01'
 LEVEL = 'exploration'
 PLAN = {
-    'quick': [('synth', 24000), ('synth_cli', 6000), ('synth_reuse', 5000), ('synth_writeback', 4000), ('shipped', 960)],
-    'thorough': [('synth', 900000), ('synth_cli', 200000), ('synth_reuse', 200000), ('synth_writeback', 150000), ('shipped', 40000)],
+    'quick': [('synth', 24000), ('synth_cli', 6000), ('synth_reuse', 5000), ('synth_repair', 3000), ('synth_writeback', 4000), ('shipped', 960)],
+    'thorough': [('synth', 900000), ('synth_cli', 200000), ('synth_reuse', 200000), ('synth_repair', 100000), ('synth_writeback', 150000), ('shipped', 40000)],
 }
 DEADLINE = {'quick': 200, 'thorough': 3300}
 PROBES = ['second-solve-on-written-back-file', 'store-reused-after-edit', 'line-reattempted', 'refusal-with-waiters-outstanding', 'abort-after-prompts',
@@ -28,7 +28,8 @@ def cli_script(case, seed):
     cli = {'prompt': case['prompt'], 'writeback': r.chance(0.5), 'solution': r.chance(0.3), 'garble': {},
            'interrupt': None}
     if case.get('refuse_at') is not None and case['prompt']:
-        cli['interrupt'] = [case['refuse_at'], 'ctrlc']
+        # the user stops answering: Ctrl-C, or the input simply ends (Ctrl-D, piped answers running out)
+        cli['interrupt'] = [case['refuse_at'], r.pick(['ctrlc', 'ctrlc', 'eof'])]
     return cli
 
 
@@ -71,6 +72,16 @@ def evaluate(case, engine, acc=None):
         if acc is not None and edits:
             acc.count('probe:store-reused-after-edit')
             acc.count('fault:store-edited-between-solves')
+    elif engine == 'synth_repair':
+        # solve() aborts on an invalid value in the file, the caller repairs it, solve() again on the same Solver
+        run, case = simrun.execute_repair(case, case.get('reuse_seed', 0))
+        if run is None:
+            if acc is not None:
+                acc.count('outcome:no-invalid-input-abort')
+            return []
+        if acc is not None:
+            acc.count('fault:solve-again-after-repaired-input')
+            acc.count('probe:solve-again-after-repaired-input')
     elif engine == 'synth_cli':
         run = simrun.execute_cli(case, case.get('cli'))
     else:
@@ -121,6 +132,9 @@ def run_one(engine, seed, acc, tier):
     if engine == 'synth_cli':
         case['cli'] = cli_script(case, seed)
     if engine == 'synth_reuse':
+        case['reuse_seed'] = seed
+    if engine == 'synth_repair':
+        case = gen.gen_case(seed, force_faults=r0.pick([['corrupt'], ['corrupt'], ['corrupt', 'notimpl'], ['corrupt', 'missing']]))
         case['reuse_seed'] = seed
     if engine == 'synth_writeback':
         r = core.Rng(core.h64('c01wb', seed))
